@@ -86,13 +86,13 @@ func (v *Verifier) callCommon(s *State, c *ssa.CallCommon, fv *Value, args []*Va
 		}
 		if callee == nil {
 			// unknown function value
-			hasGlobalContract := fv != nil && strings.HasPrefix(fv.Orig, "global:") && v.contracts.byName[strings.TrimPrefix(fv.Orig, "global:")] != nil
+			hasGlobalContract := fv != nil && strings.HasPrefix(fv.Orig, "global:") && v.contracts.get(strings.TrimPrefix(fv.Orig, "global:")) != nil
 			if fv != nil && fv.L[0] != nil && !hasGlobalContract {
 				v.addOb(s, "nil", pos, Neq(fv.L[0], Int(0)), "", nil)
 			}
 			if fv != nil && strings.HasPrefix(fv.Orig, "global:") {
 				name := strings.TrimPrefix(fv.Orig, "global:")
-				if fc := v.contracts.byName[name]; fc != nil {
+				if fc := v.contracts.get(name); fc != nil {
 					v.byContract[name] = true
 					if sig, ok := under(fv.T).(*types.Signature); ok {
 						return v.applyContract(s, fc, sig, args, pos, resultType(c), name)
@@ -356,7 +356,7 @@ func isModuleType(t types.Type) bool {
 func (v *Verifier) callInterface(s *State, c *ssa.CallCommon, recv *Value, args []*Value, pos token.Pos) *Value {
 	// contract declared on the interface method?
 	key := typeName(c.Value.Type()) + "." + c.Method.Name()
-	if fc := v.contracts.byName[key]; fc != nil {
+	if fc := v.contracts.get(key); fc != nil {
 		v.byContract[key] = true
 		sig := c.Method.Type().(*types.Signature)
 		full := append([]*Value{recv}, args...)
@@ -900,6 +900,21 @@ func (v *Verifier) execGo(s *State, t *ssa.Go) {
 		name = funcRef(f)
 	}
 	v.assumptions["goroutine "+name+" started in "+funcRef(s.frame.fn)+": body not executed in this context"] = true
+	if ch := v.latchOfGo(s, t); ch != nil {
+		h := s.heapArr("chan#running", runningSort)
+		s.heap["chan#running"] = Store(h, ch, True)
+	}
+	gc := s.ghost["$gocount"]
+	if gc == nil {
+		gc = scalar(types.Typ[types.Int], Int(0))
+	}
+	s.ghost["$gocount"] = scalar(types.Typ[types.Int], Add(gc.term(), Int(1)))
+	// snapshot of ghost variables at the go statement, for the spec function atgo(e)
+	for _, k := range sortedKeys(s.ghost) {
+		if !strings.HasPrefix(k, "$") {
+			s.ghost["$atgo!"+k] = s.ghost[k]
+		}
+	}
 	if h := v.goHook; h != nil {
 		h(s, t)
 	}
@@ -946,9 +961,65 @@ func (v *Verifier) execRecv(s *State, t *ssa.UnOp, ch *Value) {
 	v.set(s, t, &Value{T: t.Type(), L: val.L})
 }
 
-// latch hooks (filled by latch support)
-func (v *Verifier) onRecv(s *State, ch *Value, cond *Term)      {}
+// ---------- latches: channels that are only ever closed by a goroutine's last action ----------
+//
+// `go func(){ ...; close(c) }()` sets ghost running[c]; a receive from c (which can only succeed once c is closed,
+// c being close-only) clears it. Contracts read it with the spec function running(c).
+
+var runningSort = ArrSort(SInt, SBool)
+
+func (v *Verifier) onRecv(s *State, ch *Value, cond *Term) {
+	if ch.L[0] == nil {
+		return
+	}
+	h := s.heapArr("chan#running", runningSort)
+	s.heap["chan#running"] = Store(h, ch.term(), Ite(cond, False, Select(h, ch.term())))
+}
+
 func (v *Verifier) onClose(s *State, ch *Value, pos token.Pos) {}
+
+// latchOfGo finds the channel a goroutine body closes as its last action (nil if none).
+func (v *Verifier) latchOfGo(s *State, t *ssa.Go) *Term {
+	c := t.Common()
+	mc, ok := c.Value.(*ssa.MakeClosure)
+	if !ok {
+		return nil
+	}
+	fn := mc.Fn.(*ssa.Function)
+	var fv *ssa.FreeVar
+	for _, b := range fn.Blocks {
+		for _, ins := range b.Instrs {
+			call, ok := ins.(*ssa.Call)
+			if !ok {
+				continue
+			}
+			if bi, ok := call.Call.Value.(*ssa.Builtin); ok && bi.Name() == "close" {
+				// close(*freevar)
+				if u, ok := call.Call.Args[0].(*ssa.UnOp); ok {
+					if f, ok := u.X.(*ssa.FreeVar); ok {
+						fv = f
+					}
+				}
+			}
+		}
+	}
+	if fv == nil {
+		return nil
+	}
+	for i, f := range fn.FreeVars {
+		if f == fv && i < len(mc.Bindings) {
+			b := v.reg(s, mc.Bindings[i]) // pointer to the captured channel variable
+			var chv *Value
+			if b.LV != nil {
+				chv = s.load(b.LV)
+			} else {
+				chv = s.loadPtr(b.term(), fv.Type().(*types.Pointer).Elem())
+			}
+			return chv.term()
+		}
+	}
+	return nil
+}
 
 // ---------- modset analysis ----------
 
